@@ -53,12 +53,21 @@ def standins_for(pid):
 def run_standin(name, pid, tier, seed):
     _load()
     s = STANDINS[name]
-    r = s["fn"](tier, seed)
+    fn = s["fn"]
+    r = fn.run_for(pid, tier, seed) if hasattr(fn, "run_for") else fn(tier, seed)
+    for f in r.get("failures", []):
+        if f.get("finding") is None and f.get("label"):
+            for lab, fid in LABEL_TO_FINDING.items():
+                if str(f["label"]).startswith(lab):
+                    f["finding"] = fid
     r.setdefault("name", name)
     r.setdefault("bound", s["bound"])
     r.setdefault("failures", [])
     return r
 
+
+# failure classes found by the stand-ins themselves (precise predicates live in the stand-in modules)
+LABEL_TO_FINDING = {"new:paren-element": "F21", "new:inf-repr": "F22"}
 
 NATIVE_WITNESS: dict = {}  # function qualname -> callable(obligation dict) -> replay code (str) or None
 
